@@ -16,6 +16,10 @@ structure EntryAcc (W : World E L) (T : Tables E) (c : Ctx E) (incl excl : List 
   chaosMean : ∃ ratios, s.chaos = meanRatio ratios ∧ ∀ r ∈ ratios, ∃ t, W.mess t c.thr = .ok r
   cohMerged : ∃ cdl, W.merge cdl = .ok s.cohs
   remainder : RemainderOk W T c s.enc
+  chunksFact : ∃ p acc, p.lazy = lazyOf T c s.enc ∧ p.bomHere = bomHereOf c s.enc ∧ p.startIdx = startIdxOf c s.enc ∧
+    (lazyOf T c s.enc = false → p.payload = s.text) ∧ (lazyOf T c s.enc = true → p.payload = none) ∧
+    probeChunks W T c s.enc p = .ok acc ∧ s.chaos = meanRatio acc.ratios ∧ acc.lazyHard = false ∧
+    (∃ cdl, cdsOf W T c s.enc acc = .ok cdl ∧ W.merge cdl = .ok s.cohs)
 
 /-- what is known about the fallback entry -/
 structure EntryFb (W : World E L) (T : Tables E) (c : Ctx E) (incl excl : List E) (s : Sub E L) : Prop where
@@ -43,9 +47,12 @@ theorem fromBytes_facts {W : World E L} {T : Tables E} {sort : Sorter E L}
   · intro soft e m hS hal hp
     have f := accepted_facts hp
     have he : m.toSub.enc = e := f.enc
-    exact ⟨f.raw, by rw [he]; exact hS, by rw [he]; exact hal, by rw [he]; exact f.bom, f.below,
+    refine ⟨f.raw, by rw [he]; exact hS, by rw [he]; exact hal, by rw [he]; exact f.bom, f.below,
       by rw [he]; exact f.needsBom, by rw [he]; exact f.text, f.chaosMean, f.cohMerged,
-      by rw [he]; exact f.remainder⟩
+      by rw [he]; exact f.remainder, ?_⟩
+    obtain ⟨p, acc, h1, h2, h3, h4, h5, h6, h7, h8, _, h9⟩ := f.chunksFact
+    rw [he]
+    exact ⟨p, acc, h1, h2, h3, h4, h5, h6, h7, h8, h9⟩
   · intro soft e fb hS hal hp
     have f := fallback_facts hp
     have he : fb.toSub.enc = e := f.enc
